@@ -310,3 +310,61 @@ HARNESSES.append(
       bounds=lambda tier: {"workers": 2 if tier == "quick" else 3, "start times": "symbolic ns [0,3]", "hold times": HOLD_NS,
                            "semaphore": "capacity 2, symbolic amounts", "rwlock": "symbolic reader/writer roles"},
       outside=["more than 3 competing processes", "acquire timeouts"]))
+
+
+# ------------------------------------------------------------------ RWLock with a reader cap
+def rwlock_cap(sym, tier):
+    """Three readers on RWLock(max_readers=2): a reader queued on the cap is granted at the instant a
+    slot frees (as soon as capacity allows), never later, and readers never exceed the cap."""
+    r = Result()
+    p = RWLock("rw", max_readers=2)
+    W = 3
+    starts = [sym.int(f"start{i}", 0, 3) for i in range(W)]
+    holds = [sym.choice(f"hold{i}", 2) for i in range(W)]
+    log = []
+    active = [0]
+
+    def body(w):
+        i = int(w.name[1:])
+        log.append((i, "req", w.now.nanoseconds))
+        yield from p.acquire_read()
+        active[0] += 1
+        if active[0] > 2:
+            r.bad("rwlock_readers_never_exceed_cap", i, active[0])
+        log.append((i, "got", w.now.nanoseconds))
+        yield [1e-9, 5e-9][holds[i]]
+        active[0] -= 1
+        log.append((i, "rel", w.now.nanoseconds))
+        return p.release_read()
+
+    ents = [_Worker(f"w{i}", body) for i in range(W)]
+    sim = Simulation(entities=[p] + ents)
+    mon = Monitor(sim, cap=40)
+    sim.schedule([mk_event(starts[i], f"go{i}", ents[i]) for i in range(W)])
+    try:
+        sim.run()
+    except SpinDetected:
+        pass
+    mon.judge(r, "rwlock_cap")
+    got = {i: t for (i, what, t) in log if what == "got"}
+    req = {i: t for (i, what, t) in log if what == "req"}
+    rel = sorted(t for (i, what, t) in log if what == "rel")
+    for i in range(W):
+        if i not in got:
+            r.bad("every_waiter_eventually_served", "rwlock_cap", i, log)
+        elif got[i] > req[i]:
+            r.wit.add("reader_blocked_on_cap")
+            # it must be granted at the first release at or after its request (a slot is free from then on)
+            first_rel = [t for t in rel if t >= req[i]]
+            if not first_rel or got[i] != first_rel[0]:
+                r.bad("blocked_reader_granted_as_soon_as_a_slot_frees", {"worker": i, "requested": req[i], "granted": got[i], "releases": rel})
+    r.obs = {"log": log}
+    return r
+
+
+HARNESSES.append(
+    H(name="c09_rwlock_cap", fn=rwlock_cap, shape="S", budget=lambda tier: 900.0,
+      cubes=lambda tier: [{"hold0": a, "hold1": b} for a in range(2) for b in range(2)],
+      require=lambda tier: ["reader_blocked_on_cap"],
+      functions=["RWLock.acquire_read/release_read/_wake_waiters/try_acquire_read"],
+      bounds=lambda tier: {"readers": 3, "max_readers": 2, "start times": "symbolic ns [0,3]", "hold ns": [1, 5]}))
